@@ -409,6 +409,23 @@ theorem genInv_fabric_write (n : Node) (f f' : Fabric) (hidx : f'.idx = f.idx) (
     rw [hst] at this
     cases b <;> exact this
 
+theorem sessOp_vvs_genInv (cfg : Cfg) (n : Node) (sid s : Nat) (mode : Mode) (h : GenInv n) :
+    GenInv (sessOp cfg n sid mode (.vvs s)).1 := by
+  simp only [sessOp]
+  split
+  · exact h
+  · cases hg : getFabric n mode.fab with
+    | none => exact h
+    | some f =>
+      have hidx := getFabric_idx hg
+      simp only []
+      split
+      · exact h
+      · have := genInv_storeFabric n f (by rw [hidx]; exact hg) h
+        rcases hst : storeFabric n f with ⟨n2, b⟩
+        rw [hst] at this
+        cases b <;> exact this
+
 theorem sessOp_write_genInv (cfg : Cfg) (n : Node) (sid : Nat) (mode : Mode) (op : Op) (h : GenInv n)
     (hop : (∃ s v, op = .acl s v) ∨ (∃ s v, op = .grp s v) ∨ (∃ s v, op = .label s v) ∨ (∃ s, op = .fwrite s)) :
     GenInv (sessOp cfg n sid mode op).1 := by
@@ -769,6 +786,7 @@ theorem sessOp_genInv (cfg : Cfg) (n : Node) (sid : Nat) (mode : Mode) (op : Op)
   | grp s v => exact sessOp_write_genInv cfg n sid mode _ h (Or.inr (Or.inl ⟨s, v, rfl⟩))
   | label s v => exact sessOp_write_genInv cfg n sid mode _ h (Or.inr (Or.inr (Or.inl ⟨s, v, rfl⟩)))
   | fwrite s => exact sessOp_write_genInv cfg n sid mode _ h (Or.inr (Or.inr (Or.inr ⟨s, rfl⟩)))
+  | vvs s => exact sessOp_vvs_genInv cfg n sid s mode h
   | net s v => exact sessOp_simple_genInv cfg n sid mode _ h (Or.inr (Or.inr (Or.inr (Or.inl ⟨s, v, rfl⟩))))
   | rmnet s v => exact sessOp_simple_genInv cfg n sid mode _ h (Or.inr (Or.inr (Or.inr (Or.inr (Or.inl ⟨s, v, rfl⟩)))))
   | bcw s v => exact sessOp_simple_genInv cfg n sid mode _ h (Or.inr (Or.inr (Or.inr (Or.inr (Or.inr ⟨s, v, rfl⟩)))))
